@@ -167,7 +167,9 @@ pub fn build(
                 if let ("singleton", [grammar::Expr::IntLiteral(value)]) =
                     (ident.as_str(), exprs.as_slice())
                 {
-                    singleton = Some(*value as usize);
+                    singleton = Some(usize::try_from(*value).with_context(|| {
+                        format!("failed to convert `singleton` attribute into usize for enum `{resolvee_path}`")
+                    })?);
                 }
             }
             grammar::Attribute::Assign(_ident, _expr) => {}
